@@ -45,7 +45,7 @@ def instances(tier):
                 if tcp:
                     d["TCP"] = None
                 out.append(mk("c09_stream_k%d_%s_%s" % (k, "tcp" if tcp else "serial", "busy" if af else "ok"),
-                              "C09/c09.c", rc.UNITS, d, unwind=UW, default_unwind=3, encoded_units=rc.ENC,
+                              "C09/c09.c", rc.UNITS, d, unwind=UW, default_unwind=lmax + 2, encoded_units=rc.ENC,
                               fp_removal=True, replay_units=rc.REPLAY_UNITS, object_bits=12, timeout=3000, mem_gb=10))
     # chunk-wise delivery (what a TCP source with the getbuffer extension causes): two chunks, split point enumerated
     chunked = [(14, 0, 0), (14, 13, 0), (14, 16, 0), (14, 0, 1), (14, 8, 1)] if tier == "quick" else \
@@ -57,7 +57,7 @@ def instances(tier):
         UW["sink_put_chunk"] = 3
         d = {"LMAX": lmax, "PW": 2, "KEXTRA": k, "ALLOC_FAILS": af, "TCP": None, "CHUNKED": None, "SPLIT": sp}
         out.append(mk("c09_chunked_k%d_s%d_tcp_%s" % (k, sp, "busy" if af else "ok"), "C09/c09.c", rc.UNITS, d,
-                      unwind=UW, default_unwind=3, encoded_units=rc.ENC, fp_removal=True,
+                      unwind=UW, default_unwind=lmax + 2, encoded_units=rc.ENC, fp_removal=True,
                       replay_units=rc.REPLAY_UNITS, object_bits=12, timeout=3000, mem_gb=10))
     for k in ([14] if tier == "quick" else [1, 14, 32]):
         UW = rc.unwind(lmax, k, 2)
@@ -67,6 +67,6 @@ def instances(tier):
                 if tcp:
                     d["TCP"] = None
                 out.append(mk("c09_srcerr_k%d_%s_%s" % (k, "tcp" if tcp else "serial", "busy" if af else "ok"),
-                              "C09/c09.c", rc.UNITS, d, unwind=UW, default_unwind=3, encoded_units=rc.ENC,
+                              "C09/c09.c", rc.UNITS, d, unwind=UW, default_unwind=lmax + 2, encoded_units=rc.ENC,
                               fp_removal=True, replay_units=rc.REPLAY_UNITS, object_bits=12, timeout=3000, mem_gb=10))
     return out
